@@ -30,6 +30,25 @@ type ValNumber struct{ N float64 }
 
 func (v ValNumber) Number() float64 { return v.N }
 
+// StrNum says what it is as a string and as a number (and not as a boolean): which one decides a question is the
+// library's documented order - the string for printing and for truth, the number for arithmetic.
+type StrNum struct {
+	S string
+	N float64
+}
+
+func (v StrNum) String() string  { return v.S }
+func (v StrNum) Number() float64 { return v.N }
+
+// NumBool is a Number and a Boolean.
+type NumBool struct {
+	N float64
+	B bool
+}
+
+func (v NumBool) Number() float64 { return v.N }
+func (v NumBool) Boolean() bool   { return v.B }
+
 type ValBoolean struct{ B bool }
 
 func (v ValBoolean) Boolean() bool { return v.B }
